@@ -193,6 +193,21 @@ def write_replay(pid, payload):
     return path
 
 
+# distinctness accounting: checks note a key per generated case; finish() subtracts the duplicates it saw
+_NOTED = {'total': 0, 'keys': set()}
+
+
+def note_case(*parts):
+    h = hashlib.sha1()
+    for x in parts:
+        if hasattr(x, 'tobytes'):
+            h.update(str(getattr(x, 'shape', '')).encode()); h.update(x.tobytes())
+        else:
+            h.update(json.dumps(x, sort_keys=True, default=str).encode())
+    _NOTED['total'] += 1
+    _NOTED['keys'].add(h.hexdigest())
+
+
 class Result:
     """Collects what a check did; prints interface lines; writes evidence."""
 
@@ -220,6 +235,12 @@ class Result:
 
     def finish(self):
         os.makedirs(EVID, exist_ok=True)
+        dup = _NOTED['total'] - len(_NOTED['keys'])
+        if _NOTED['total']:
+            self.coverage['cases_keyed_for_distinctness'] = _NOTED['total']
+            self.coverage['duplicate_cases_seen'] = dup
+            if isinstance(self.coverage.get('distinct_nontrivial'), int):
+                self.coverage['distinct_nontrivial'] = max(0, self.coverage['distinct_nontrivial'] - dup)
         ev = {
             'property_id': self.pid,
             'tier': self.tier,
